@@ -23,6 +23,8 @@ import (
 	"syscall"
 	"time"
 
+	simrt "verifsimrt"
+
 	"verif/world"
 )
 
@@ -45,6 +47,7 @@ type workerOut struct {
 	DiskTuples map[string]int           `json:"disk_tuples"`
 	GCs        int                      `json:"gcs"`
 	Decisions  int                      `json:"decisions"`
+	SchedRuns  int                      `json:"sched_runs"`
 	DetChecked int                      `json:"determinism_rechecked"`
 	DetBad     []string                 `json:"determinism_mismatch,omitempty"`
 	Sigs       map[string]*world.Trace  `json:"sigs"` // first trace per failure signature
@@ -102,6 +105,7 @@ func cmdWorker(args []string) int {
 	debug.SetGCPercent(-1)
 	debug.SetMemoryLimit(6 << 30)
 	limitAddressSpace()
+	simrt.SetStuckHandler(func() { os.Exit(4) })
 	var ilog *os.File
 	if *intent != "" {
 		ilog, _ = os.OpenFile(*intent, os.O_CREATE|os.O_WRONLY|os.O_TRUNC, 0o644)
@@ -169,6 +173,7 @@ func cmdWorker(args []string) int {
 		res.Unconf += st.StructUnconf
 		res.GCs += st.GCs
 		res.Decisions += st.Decisions
+		res.SchedRuns += st.SchedRuns
 		for h := range st.States {
 			states[h] = struct{}{}
 		}
@@ -319,14 +324,29 @@ func matchFinding(fs []finding, prop, sig string) *finding {
 	return nil
 }
 
+type crash struct {
+	idx  int
+	seed uint64
+	kind string // crash | hang | race
+	log  string
+	bin  string
+	env  []string
+}
+
+type wres struct {
+	outs    []*workerOut
+	err     error
+	crashes []crash
+}
+
 type tierCfg struct {
 	runs    int
 	wallCap time.Duration
 }
 
 func budget(prop, tier string) tierCfg {
-	q := map[string]int{"C01": 6000, "C02": 6000, "C04": 5000, "C05": 1500, "C07": 5000, "C08": 4000, "C09": 6000, "C10": 1200,
-		"C11": 4000, "C12": 3000, "C13": 2500, "C14": 6000, "C16": 5000, "C17": 5000, "C18": 1500, "C19": 4000, "C20": 3000}
+	q := map[string]int{"C01": 6000, "C02": 6000, "C04": 6000, "C05": 20000, "C07": 5000, "C08": 5000, "C09": 6000, "C10": 20000,
+		"C11": 5000, "C12": 3000, "C13": 20000, "C14": 6000, "C16": 6000, "C17": 6000, "C18": 20000, "C19": 4000, "C20": 3000}
 	n := q[prop]
 	if n == 0 {
 		n = 3000
@@ -350,12 +370,18 @@ func cmdCheck(args []string) int {
 	level := fs.String("level", "exploration", "evidence level")
 	verif := fs.String("verif", "/verif", "verif directory")
 	workers := fs.Int("workers", runtime.NumCPU(), "worker processes")
+	mode := fs.String("mode", "plain", "instrumented | plain (how the harness was built)")
+	racebin := fs.String("racebin", "", "race-detector build of the instrumented harness (second pass)")
 	fs.Parse(args)
 	if *tier == "" {
 		*tier = os.Getenv("VERIF_TIER")
 	}
 	if *tier != "thorough" {
 		*tier = "quick"
+	}
+	switch *prop {
+	case "C05", "C10", "C13", "C18":
+		*level = "fault_enumeration" // fault positions are enumerated per stream (see DESIGN.md §3)
 	}
 	seed := uint64(defaultSeed)
 	if v := os.Getenv("VERIF_SEED"); v != "" {
@@ -374,89 +400,106 @@ func cmdCheck(args []string) int {
 		return 2
 	}
 	defer os.RemoveAll(scratch)
-	fmt.Printf("vsim check property=%s tier=%s seed=%d runs=%d workers=%d\n", *prop, *tier, seed, bud.runs, *workers)
+	fmt.Printf("vsim check property=%s tier=%s seed=%d runs=%d workers=%d build=%s race-pass=%v\n", *prop, *tier, seed, bud.runs, *workers, *mode, *racebin != "")
 
-	nw := *workers
-	if nw > bud.runs {
-		nw = bud.runs
-	}
-	per := (bud.runs + nw - 1) / nw
 	deadline := start.Add(bud.wallCap).Unix()
-	type crash struct {
-		idx  int
-		seed uint64
-		kind string // crash | hang
-		log  string
-	}
-	type wres struct {
-		outs    []*workerOut
-		err     error
-		crashes []crash
-	}
-	results := make([]wres, nw)
-	var wg sync.WaitGroup
-	for i := 0; i < nw; i++ {
-		wg.Add(1)
-		go func(i int) {
-			defer wg.Done()
-			from, remaining := i, per
-			for attempt := 0; attempt < 8 && remaining > 0; attempt++ {
-				outf := filepath.Join(scratch, fmt.Sprintf("w%d-%d.json", i, attempt))
-				intent := filepath.Join(scratch, fmt.Sprintf("w%d-%d.intent", i, attempt))
-				logf := filepath.Join(scratch, fmt.Sprintf("w%d-%d.log", i, attempt))
-				cmd := exec.Command(self, "worker", "-prop", *prop, "-profile", *profile, "-seed", fmt.Sprint(seed),
-					"-from", fmt.Sprint(from), "-stride", fmt.Sprint(nw), "-count", fmt.Sprint(remaining), "-out", outf, "-intent", intent,
-					"-deadline", fmt.Sprint(deadline))
-				cmd.Env = append(os.Environ(), "GODEBUG=clobberfree=1", "GOTRACEBACK=single")
-				lf, _ := os.Create(logf)
-				cmd.Stdout, cmd.Stderr = lf, lf
-				err := cmd.Run()
-				lf.Close()
-				if b, rerr := os.ReadFile(outf); rerr == nil {
-					var o workerOut
-					if json.Unmarshal(b, &o) == nil {
-						results[i].outs = append(results[i].outs, &o)
+	launch := func(bin string, base, runs int, extraEnv []string) []wres {
+		nw := *workers
+		if nw > runs {
+			nw = runs
+		}
+		if nw < 1 {
+			nw = 1
+		}
+		per := (runs + nw - 1) / nw
+		results := make([]wres, nw)
+		var wg sync.WaitGroup
+		for i := 0; i < nw; i++ {
+			wg.Add(1)
+			go func(i int) {
+				defer wg.Done()
+				from, remaining := base+i, per
+				for attempt := 0; attempt < 8 && remaining > 0; attempt++ {
+					tagf := fmt.Sprintf("w%d-%d-%d", base, i, attempt)
+					outf := filepath.Join(scratch, tagf+".json")
+					intent := filepath.Join(scratch, tagf+".intent")
+					logf := filepath.Join(scratch, tagf+".log")
+					cmd := exec.Command(bin, "worker", "-prop", *prop, "-profile", *profile, "-seed", fmt.Sprint(seed),
+						"-from", fmt.Sprint(from), "-stride", fmt.Sprint(nw), "-count", fmt.Sprint(remaining), "-out", outf, "-intent", intent,
+						"-deadline", fmt.Sprint(deadline))
+					cmd.Env = append(append(os.Environ(), "GODEBUG=clobberfree=1", "GOTRACEBACK=single"), extraEnv...)
+					lf, _ := os.Create(logf)
+					cmd.Stdout, cmd.Stderr = lf, lf
+					err := cmd.Run()
+					lf.Close()
+					if b, rerr := os.ReadFile(outf); rerr == nil {
+						var o workerOut
+						if json.Unmarshal(b, &o) == nil {
+							results[i].outs = append(results[i].outs, &o)
+						}
+					} else if err == nil {
+						results[i].err = rerr
+						return
 					}
-				} else if err == nil {
-					results[i].err = rerr
-					return
-				}
-				if err == nil {
-					return
-				}
-				// the worker died inside a run: find which one, remember it, carry on after it
-				ib, _ := os.ReadFile(intent)
-				lines := strings.Split(strings.TrimSpace(string(ib)), "\n")
-				kind := "crash"
-				var idx int
-				var sd uint64
-				found := false
-				for j := len(lines) - 1; j >= 0; j-- {
-					if lines[j] == "HANG" {
-						kind = "hang"
+					if err == nil {
+						return
 					}
-					if n, _ := fmt.Sscanf(lines[j], "BEGIN %d %d", &idx, &sd); n == 2 {
-						found = true
-						break
+					code := -1
+					if ee, ok := err.(*exec.ExitError); ok {
+						code = ee.ExitCode()
 					}
+					// the worker died inside a run: find which one, remember it, carry on after it
+					ib, _ := os.ReadFile(intent)
+					lines := strings.Split(strings.TrimSpace(string(ib)), "\n")
+					kind := "crash"
+					if code == 66 {
+						kind = "race"
+					}
+					if code == 4 {
+						results[i].err = fmt.Errorf("scheduler lost a goroutine (SIMRT-STUCK)")
+					}
+					var idx int
+					var sd uint64
+					found := false
+					for j := len(lines) - 1; j >= 0; j-- {
+						if lines[j] == "HANG" {
+							kind = "hang"
+						}
+						if n, _ := fmt.Sscanf(lines[j], "BEGIN %d %d", &idx, &sd); n == 2 {
+							found = true
+							break
+						}
+					}
+					lb, _ := os.ReadFile(logf)
+					tail := string(lb)
+					if len(tail) > 4000 {
+						tail = tail[:4000]
+					}
+					if !found {
+						results[i].err = fmt.Errorf("worker died before its first run: %v: %s", err, tail)
+						return
+					}
+					results[i].crashes = append(results[i].crashes, crash{idx, sd, kind, tail, bin, extraEnv})
+					done := (idx-(base+i))/nw + 1
+					from = idx + nw
+					remaining = per - done
 				}
-				lb, _ := os.ReadFile(logf)
-				tail := string(lb)
-				if len(tail) > 2500 {
-					tail = tail[:2500]
-				}
-				if !found {
-					results[i].err = fmt.Errorf("worker died before its first run: %v: %s", err, tail)
-					return
-				}
-				results[i].crashes = append(results[i].crashes, crash{idx, sd, kind, tail})
-				done := (idx-i)/nw + 1
-				from = idx + nw
-				remaining = per - done
-			}
-		}(i)
+			}(i)
+		}
+		wg.Wait()
+		return results
 	}
-	wg.Wait()
+	results := launch(self, 0, bud.runs, nil)
+	raceRuns := 0
+	if *racebin != "" {
+		// second pass: the same simulation with the race detector watching the controlled schedules
+		raceRuns = bud.runs / 6
+		if raceRuns < 32 {
+			raceRuns = 32
+		}
+		gorace := "GORACE=halt_on_error=1 exitcode=66"
+		results = append(results, launch(*racebin, 1<<24, raceRuns, []string{gorace})...)
+	}
 
 	// merge
 	tot := &workerOut{Ops: map[string]int{}, Probes: map[string]int{}, Faults: map[string]int{}, Pairings: map[string]int{},
@@ -486,6 +529,7 @@ func cmdCheck(args []string) int {
 			tot.Unconf += o.Unconf
 			tot.GCs += o.GCs
 			tot.Decisions += o.Decisions
+			tot.SchedRuns += o.SchedRuns
 			tot.DetChecked += o.DetChecked
 			tot.DetBad = append(tot.DetBad, o.DetBad...)
 			for _, h := range o.States {
@@ -513,9 +557,31 @@ func cmdCheck(args []string) int {
 	fatalSeen := map[string]bool{}
 	for ci, c := range allCrashes {
 		class := c.kind
-		for _, l := range strings.Split(c.log, "\n") {
+		ls := strings.Split(c.log, "\n")
+		for li, l := range ls {
 			if strings.HasPrefix(l, "fatal error:") || strings.HasPrefix(l, "panic:") || strings.HasPrefix(l, "runtime: out of memory") {
 				class = l
+				break
+			}
+			if strings.HasPrefix(l, "WARNING: DATA RACE") {
+				// first library frame of each side names the race
+				var frames []string
+				for _, m := range ls[li:] {
+					m = strings.TrimSpace(m)
+					if strings.HasPrefix(m, "github.com/RoaringBitmap/roaring") && strings.Contains(m, "(") {
+						fn := m[strings.LastIndex(m, "/")+1:]
+						if i := strings.Index(fn, "("); i > 0 {
+							fn = fn[:i]
+						}
+						if len(frames) == 0 || frames[len(frames)-1] != fn {
+							frames = append(frames, fn)
+						}
+						if len(frames) == 2 {
+							break
+						}
+					}
+				}
+				class = "DATA RACE " + strings.Join(frames, " vs ")
 				break
 			}
 		}
@@ -530,7 +596,7 @@ func cmdCheck(args []string) int {
 		tb, _ := json.MarshalIndent(tr, "", " ")
 		name := filepath.Join(*verif, "replays", fmt.Sprintf("%s-%d-fatal.json", *prop, c.seed))
 		os.WriteFile(name, tb, 0o644)
-		code := runSelfTimeout(self, 200*time.Second, "replay", "-q", name)
+		code := runBinTimeout(c.bin, c.env, 200*time.Second, "replay", "-q", name)
 		if code == 0 || code == 1 {
 			fmt.Printf("WORKER-CRASH not reproducible from its seed (index %d seed %d): %s\n", c.idx, c.seed, class)
 			harnessFault = "a worker died and the run does not reproduce: " + class
@@ -639,6 +705,7 @@ func cmdCheck(args []string) int {
 			"representation_pairings": tot.Pairings,
 			"collections_triggered": tot.GCs,
 			"scheduler_decisions":   tot.Decisions,
+			"simulated_executions_under_scheduler": tot.SchedRuns,
 			"distinct_interleavings": len(inter),
 			"distinct_states":       len(states),
 			"foreign_divergence":    tot.Foreign,
@@ -646,6 +713,8 @@ func cmdCheck(args []string) int {
 			"structural_unconfirmed": tot.Unconf,
 			"known_finding_hits":    knownHits,
 			"determinism_rechecked": tot.DetChecked,
+			"build":                 *mode,
+			"race_detector_runs":    raceRuns,
 			"components_real":       []string{"every line of the library (built from /repo's working tree with -tags verif)", "Go runtime, collector (fired as a step)", "mmap/mprotect"},
 			"components_stub":       []string{"io.Writer/io.Reader (simio)", "caller-owned buffers (simio regions)", "goroutine choice, select choice, sync.Pool recycling, NumCPU (simrt, in instrumented builds)"},
 		},
@@ -689,9 +758,9 @@ func firstLines(s string, n int) string {
 	return strings.Join(l, "\n  ")
 }
 
-func runSelfTimeout(self string, d time.Duration, args ...string) int {
-	cmd := exec.Command(self, args...)
-	cmd.Env = append(os.Environ(), "GODEBUG=clobberfree=1", "GOTRACEBACK=single")
+func runBinTimeout(bin string, env []string, d time.Duration, args ...string) int {
+	cmd := exec.Command(bin, args...)
+	cmd.Env = append(append(os.Environ(), "GODEBUG=clobberfree=1", "GOTRACEBACK=single"), env...)
 	if err := cmd.Start(); err != nil {
 		return 2
 	}
